@@ -25,7 +25,10 @@ func TestVerifD51PreEpochTimerFiresInOrder(t *testing.T) {
 
 	early := time.Unix(0, -5)                           // 5 ns before the epoch
 	late := time.Date(2100, 1, 1, 0, 0, 0, 0, time.UTC) // far in the future
-	reg.SetTimer([]byte("k"), early)                    // later than the registry's initial watermark (time.Time{})
+	// the runner works through data from before 1970: its watermark is below the epoch, so the early timer is accepted
+	for range reg.AdvanceWatermark("sr0", &workerpb.Watermark{Timestamp: timestamppb.New(time.Unix(-1, 0))}) {
+	}
+	reg.SetTimer([]byte("k"), early)
 	reg.SetTimer([]byte("k"), late)
 
 	var fired []time.Time
